@@ -100,8 +100,15 @@ func genAccessUnit(c *RNG, mtu int) (nals [][]byte) {
 		if c.Intn(5) == 0 {
 			nals = append(nals, genH264Nal(c, c.Pick(9, 12), 2+c.Intn(5)))
 		}
-		if c.Intn(3) == 0 {
+		switch c.Intn(12) {
+		case 0, 1, 2, 3:
 			nals = append(nals, genH264Nal(c, 7, 2+c.Intn(12)), genH264Nal(c, 8, 2+c.Intn(6)))
+		case 4: // several picture parameter sets behind one SPS
+			nals = append(nals, genH264Nal(c, 7, 2+c.Intn(12)), genH264Nal(c, 8, 2+c.Intn(6)), genH264Nal(c, 8, 2+c.Intn(6)))
+		case 5: // a parameter set on its own
+			nals = append(nals, genH264Nal(c, c.Pick(7, 8), 2+c.Intn(8)))
+		case 6: // PPS first, or the SPS repeated
+			nals = append(nals, genH264Nal(c, c.Pick(7, 8), 2+c.Intn(6)), genH264Nal(c, 7, 2+c.Intn(6)), genH264Nal(c, 8, 2+c.Intn(6)))
 		}
 		nals = append(nals, genH264Nal(c, other(), size()))
 	}
@@ -213,22 +220,20 @@ func h264LosslessOracle(disable, avc bool, mtus []int, streams [][]byte, nalsPer
 	d := &codecs.H264Packet{IsAVC: avc}
 	var got []byte
 	var expect [][]byte
-	var pendingSPS, pendingPPS []byte
+	// the property's reading of the hold-back rule: parameter sets may be held until the next other unit
+	// (or a later call), but then EVERY one of them arrives, in the order it was given, in front of it
+	var pending [][]byte
 	for ci, nals := range nalsPerCall {
 		frags := p.Payload(uint16(mtus[ci]), append([]byte{}, streams[ci]...))
 		for _, n := range nals {
 			t := n[0] & 0x1F
 			switch {
 			case t == 9 || t == 12:
-			case t == 7 && !disable:
-				pendingSPS = n
-			case t == 8 && !disable:
-				pendingPPS = n
+			case (t == 7 || t == 8) && !disable:
+				pending = append(pending, n)
 			default:
-				if pendingSPS != nil && pendingPPS != nil {
-					expect = append(expect, pendingSPS, pendingPPS)
-					pendingSPS, pendingPPS = nil, nil
-				}
+				expect = append(expect, pending...)
+				pending = nil
 				expect = append(expect, n)
 			}
 		}
@@ -258,8 +263,9 @@ func h264LosslessOracle(disable, avc bool, mtus []int, streams [][]byte, nalsPer
 			}
 		}
 	}
-	if !bytes.Equal(got, frameAs(avc, expect)) {
-		return "depacketized stream differs from the NAL units that were payloaded"
+	// parameter sets still held at the end of the history may or may not have been sent yet
+	if want := frameAs(avc, expect); !bytes.Equal(got, want) && !bytes.Equal(got, frameAs(avc, append(append([][]byte{}, expect...), pending...))) {
+		return fmt.Sprintf("depacketized stream differs from the NAL units that were payloaded: got %x, want %x", got, want)
 	}
 	return ""
 }
